@@ -671,11 +671,62 @@ def send_contract(h):
     h.cover("send explored")
 
 
+def _notify_native(h):
+    """Native reading: the real socket with a random mix of well-behaved, slow and raising subscribers."""
+    import asyncio as _aio
+    from replay import vloop
+    import pyairtouch.comms.socket as _S
+    import pyairtouch.at4.comms.registry as _reg
+    import pyairtouch.at4.comms.x2B_group_status as _gs
+    which = h.choice("kind", ["connection", "message"])
+    flag = h.choice("connected", [True, False])
+    n = h.int("subscribers", 0, 5)
+    kinds = [h.choice(f"subscriber_{i}", ["plain", "slow", "raises", "raises-late", "raises-oserror"]) for i in range(n)]
+
+    async def main(loop, net):
+        sk = _S.AirTouchSocket(loop, "console", 9004, _reg.INSTANCE)
+        seen = []
+        hdr, msg = object(), _gs.GroupStatusRequest()
+
+        def make(i, kind):
+            async def sub(*a, **k):
+                seen.append((i, a, k))
+                if kind in ("slow", "raises-late"):
+                    await _aio.sleep(0.1 * (i + 1))
+                if kind in ("raises", "raises-late"):
+                    raise RuntimeError(f"subscriber {i}")
+                if kind == "raises-oserror":
+                    raise ConnectionResetError(f"subscriber {i}")
+            return sub
+        for i, kind in enumerate(kinds):
+            (sk.subscribe_on_connection_changed if which == "connection" else sk.subscribe_on_message_received)(make(i, kind))
+        raised = None
+        try:
+            if which == "connection":
+                await sk._notify_connection_changed(connected=flag)
+            else:
+                await sk._notify_message_received(hdr, msg)
+        except KeyboardInterrupt:
+            raise
+        except BaseException as e:  # noqa: BLE001
+            raised = e
+        await _aio.sleep(5.0)
+        return raised, seen, hdr, msg
+    (raised, seen, hdr, msg), _, _ = vloop.run(main)
+    h.oblige("a raising subscriber never makes the notification raise", raised is None)
+    h.oblige("the notification walks its subscriber set exactly once (every subscriber is told, nobody twice)",
+             sorted(i for i, _, _ in seen) == list(range(n)))
+    if which == "connection":
+        h.oblige("every connection subscriber is called with connected=<flag>", all(a == () and k == {"connected": flag} for _, a, k in seen))
+    else:
+        h.oblige("every message subscriber is called with (header, message)", all(len(a) == 2 and a[0] is hdr and a[1] is msg and k == {} for _, a, k in seen))
+
+
 @oset("socket._notify_subscribers", ["C07", "C12"], [F_NOTIFY, F_NCC, F_NMR])
 def notify_contract(h):
     """Every subscriber's call is awaited exactly once; an exception raised by one is swallowed."""
     if not h.symbolic:
-        return
+        return _notify_native(h)
     W = SockWorld(h)
     sock = W.make_socket()
     which = h.choice("kind", ["connection", "message"])
